@@ -44,7 +44,7 @@ CLAIMED = {
         "decreasing at the recursive call), each alias expanded at most once per chain (ghost expansion log duplicate-free and "
         "disjoint from the seen set), result stops at a fixed point, the user's arguments are a suffix of the result in their "
         "original order (chains without return_command), decorators only appended; the alias table is only read through get/in/[] "
-        "(order independence: iterating it is an obligation failure). Aliases.get, SubprocSpec.resolve_decorators / add_decorator / "
+        "(order independence: iterating it is an obligation failure). Aliases.get (also: the alias looked up is not expanded again in its own chain - `ls -> ls --color`, a return_command alias returning its own name), SubprocSpec.resolve_decorators / add_decorator / "
         "resolve_alias (every decorator collected by the chain applied once, in order; no re-entry for a running alias) and "
         "resolve_binary_loc (recursive-alias error iff ...) are verified against callee contracts, never bodies.",
    note="Assumed: finite alias table (two cardinality axioms: card >= 0, inserting a new name decreases the unseen count by 1); "
@@ -75,7 +75,7 @@ CLAIMED = {
         "object): script_cache_check and code_cache_check use an entry only if it exists, is not older than the source, carries both "
         "version lines, loads, and IS a code object; every other case (and every exception of every external) yields (False, None) - no "
         "exception escapes (exhaustive path enumeration; no-exception obligations). should_use_cache equals the documented switch truth "
-        "table; update_cache writes version line, python line, payload in that order and nothing when not writable; run_script_with_cache "
+        "table; update_cache writes version line, python line, payload in that order and nothing when not writable, opens the entry for a TRUNCATING write (an existing entry is replaced) and rewrites a writable entry on every normal return; run_script_with_cache "
         "/ run_code_with_cache touch the cache only when switched on, run exactly one code object, name code entries by the digest of the "
         "text only; _cache_renamer keys script entries by the file's real path; the import hook (XonshImportHook.get_code) hands the import machinery either an entry script_cache_check accepted or the "
         "compilation of the module's CURRENT source - always a code object - and raises ImportError exactly for an unknown module. Bounded stand-in: real writer -> real readers on real "
@@ -109,7 +109,7 @@ CLAIMED = {
         "whether it happened; cd / pushd_fn / popd_fn / dirs_fn preserve $PWD == CWD; a non-zero return code implies $PWD, $OLDPWD, CWD and "
         "DIRSTACK are unchanged; a zero code with an attempted chdir implies the process really is there; cd - / cd -N / pushd dir / pushd / "
         "pushd -n / popd / popd +-N / dirs +-N select the documented entries under both $PUSHD_MINUS settings; the stack holds at most "
-        "$DIRSTACK_SIZE entries after every pushd and truncation drops from the bottom (pushd / popd with and without the listing they print). with_pushd - `pushd d` "
+        "$DIRSTACK_SIZE entries after every pushd and truncation drops from the bottom (pushd / popd with and without the listing they print). cd under $AUTO_PUSHD pushes the directory left through `pushd -n -q` only (the alias is ASSUMED to decode into pushd_fn, whose verified clause is used), so the stack stays within $DIRSTACK_SIZE there too. with_pushd - `pushd d` "
         "then `popd` around a body (with-contract, callers checked against the pushd_fn / popd_fn CONTRACTS): with room on the stack, afterwards $PWD, the process directory and the stack are exactly as before, "
         "or - when the way back fails - exactly the pushed state, never a mixture; once the process is back in the old directory the stack is as before too; the way back is attempted exactly once on "
         "every exit of the body, exceptional ones included; a failed pushd changes nothing and raises. All paths, all stacks, all arguments. The same "
@@ -152,7 +152,7 @@ CLAIMED = {
         "to_bool_or_none, to_bool_or_int, to_int_or_none, to_shlvl/adjust_shlvl) are proved inverse on all valid values (string theory). "
         "Enum (complete): value types of the real registry vs the `editable` predicate. Bounded stand-ins (never counted as proved): "
         "convert(detype(v)) == v over all registered variables x a value pool; cached vs recomputed detype() after every history of <= 4 (thorough 5) "
-        "operations out of 12 (set, del, hold, edit held, edit direct, swap+launch, read default, another thread inside a swap, equal-but-different re-assign).",
+        "operations out of 12 (set, del, hold, edit held, edit direct, swap+launch, read default, another thread inside a swap, equal-but-different re-assign); every stack of <= 3 (thorough 4) overlays / swaps on the same variables: the child's mapping says what a read says, innermost first.",
    note="KNOWN FINDINGS (recorded): an edit through a reference obtained before the last launch is not seen (cache dropped on READ of a mutable); six lossy "
         "string formats ($PATHEXT / csv sets with empty or separator-containing elements, non-integral history sizes, bools in int variables, None in "
         "pattern / logfile variables). Two genuine defects repaired (fix: 7aeafb3, 2d58ace). Unverified: LsColors / EnvPath / history-tuple / csv converters by SMT (bounded only), the detyper of each variable as a "
@@ -172,7 +172,7 @@ CLAIMED = {
         "mode; an input redirect sets stdin only, an stdout / stderr redirect that stream only, and a both-streams redirect gives both streams the SAME handle. safe_open opens exactly the file named, once, in the mode asked, and turns "
         "every failure (permission, missing directory, anything else) into a XonshError. Enum (complete): all 50 redirect spellings of the real tokenizer tables through the real parser (one redirect token, target "
         "taken iff one-sided) and the real _redirect_streams decode to the class their stream names denote - all spellings of a class agree, and a both-streams class hands both streams ONE shared handle (two opens of the same target would overwrite each other). "
-        "Bounded stand-in (not counted as proved): real cmds_to_specs on every pipeline of <= 3 (thorough 4) stages x 9 redirect forms x trailing &.",
+        "SubprocSpec.resolve_args_list (shared with C04): a redirect whose target is several words is passed on UNCHANGED - to be rejected - never cut down to its first word. Bounded stand-ins (not counted as proved): real cmds_to_specs on every pipeline of <= 3 (thorough 4) stages x 9 redirect forms x trailing &; 13 operator spellings x multi-word targets: reported, no file touched.",
    note="Unverified: that the OS delivers bytes written to an fd to the file / pipe behind it; SubprocSpec.build as a whole (alias resolution, decorators; resolve_redirects "
         "is verified with _redirect_streams as a ghost function; _redirect_streams is verified with the operator TABLES as ghost sets - their content is what the spelling enum checks), the capture "
         "boundary / _update_last_spec (C06), alias-side handle resolution (ProcProxyThread._get_handles, _pick_buf), stage kinds other than "
@@ -186,7 +186,7 @@ CLAIMED = {
         "(every int key, every split): returns the field of H[key] (negative keys from the end), raises IndexError IFF the key is outside "
         "[-len, len), reads the file only at an in-range non-negative position; __len__ of the field and of the history are _len - _skipped. "
         "JsonHistory.append: an excluded command changes nothing; a kept one is counted once and goes last exactly once - into the buffer, or "
-        "into the single flusher created when the buffer reaches its size; flush hands over the whole buffer in order and empties it. "
+        "into the single flusher created when the buffer reaches its size; flush hands over the whole buffer in order and empties it, and gives EVERY flusher - the inline exit-time one included - the drop-counter callback dump requires. "
         "JsonHistoryFlusher.dump (loop invariant): every handed-over command is either staged or reported dropped exactly once (so len stays "
         "consistent), the staged document is the loaded commands followed by the kept new ones in order, and without a HISTCONTROL rule "
         "nothing is dropped. lazyjson._to_json_with_size for ALL values (recursion through its own contract): the reported length is the "
@@ -213,7 +213,7 @@ CLAIMED = {
         "handle; otherwise the last stage is the pipeline's process and nothing is closed. PopenThread.__init__: every exception of the spawn "
         "(OSError, ValueError, any other) after a signal handler was installed runs _clean_up exactly once before it escapes; on success the "
         "handlers stay for the thread. PopenThread._clean_up / _restore_sigint / _restore_sigtstp / _restore_sigquit / _restore_sigwinch: each "
-        "saved handler goes back exactly once (main thread) and is forgotten, nothing is installed otherwise. PipeChannel.close_writer / close_reader / close: an end is "
+        "saved handler goes back exactly once (main thread) and is forgotten, nothing is installed otherwise - whatever the handler's truth value (signal.SIG_DFL is falsy: handler truthiness is an uninterpreted predicate). PipeChannel.close_writer / close_reader / close: an end is "
         "forgotten and closed exactly once if it was open, never otherwise (so a recycled descriptor number is never closed by mistake); SubprocSpec.close releases all five "
         "handles, closes every channel once in order and forgets them (idempotent). "
         "CommandPipeline._raise_subproc_error hands the terminal back exactly once before raising and not at all otherwise. cmds_to_specs (handler alone, try-body abstracted to `anything may happen "
@@ -242,12 +242,13 @@ CLAIMED = {
         "under every interleaving); populate_fd_queue queues exactly the non-empty chunks in the order read, stops only at end of stream or on a read "
         "error, and flags the reader closed after the last chunk is queued; QueueReader.__init__ creates the chunk queue UNBOUNDED (queue.Queue() with no argument: a bound lets the producer "
         "block in put() while the consumer waits for the process - any argument is a failed call precondition). Bounded stand-in (not proved): real $() / !() (.out, .raw_out, iteration) / "
-        "@$() on payloads of 0..70000 bytes (thorough 1 MiB) and alias stages writing up to 60000 lines, byte for byte, plus CR/CRLF, stderr separation "
+        "@$() on payloads of 0..70000 bytes (thorough 1 MiB) and alias stages writing up to 60000 lines, byte for byte, plus CR/CRLF, stderr separation, one-line outputs ending in blanks / tabs (only the final newline goes) "
         "and the final stage's return code.",
    note="NOT covered by any contract: thread interleavings themselves (the property's quantifier over schedules) - the is_fully_read clause is the sequential "
         "obligation that makes the protocol schedule-independent, but PopenThread.run / _read_write, ProcProxyThread.run, CommandPipeline.iterraw / "
         "tee_stdout / _end, the final drain after wait and the closing order of previous stages are unverified (bounded check only, one schedule per "
-        "case). Observation (not claimed either way): whether a one-line "
+        "case). Observation (not claimed either way): a single line that contains VT / FF or another character str.splitlines treats as a boundary is not `one line` for the formatter, so "
+        "its final newline is kept; whether a one-line "
         "`.out` keeps its final newline depends on how many chunks the line arrived in. Trusted: pyvc engine + the two flat axioms + z3.",
    design="§3 C06"),
  "C08": dict(
@@ -263,7 +264,7 @@ CLAIMED = {
         "merge of the CURRENT listings, $PATH order and alias names - rebuilt whenever one of them changed, kept only when none did (callers checked against callee contracts). Every function on the lookup path carries a frame "
         "clause `no result cache` (a memoised helper used on the path is a failed obligation). Bounded stand-in (not proved): all histories of 3 (thorough 4) "
         "operations out of 15 (create / delete / chmod / mkdir / symlink-to-dir / broken link, $PATH reorder / duplicate / missing / symlinked entry, re-pointing a "
-        "symlinked entry) with locate_executable, `in`, the listing and locate_binary compared with an independent POSIX search after every step.",
+        "symlinked entry) with locate_executable, `in`, the listing and locate_binary compared with an independent POSIX search after every step; 320 permission modes of a candidate against what the kernel answers for this process (os.access).",
    note="KNOWN FINDING (recorded): chmod of a file is invisible to the mtime-keyed CommandsCache views. One genuine defect repaired (fix: b84b927: a reordered / "
         "shortened $PATH left the merged command table stale). ASSUMED for the cache contracts: a change of a directory's content changes its mtime (the design assumption of the cache; the chmod finding is its "
         "failure), no hash collision between alias-name sets, the persistent cache file is off. Unverified: what map / unique_everseen / filter compute in clear_paths and get_paths' double reversal "
@@ -300,8 +301,8 @@ CLAIMED = {
         "only when EVERY open bracket is a plain `(` - inside any @( / $( / !( ... group it never is, whatever is nested on top. "
         "Bounded stand-ins (not proved): 11 command lines x 1..4 (thorough 5) physical lines x 7 statement positions (top level, after `;`, if / for-in-def "
         "/ try / with / while-in-if-in-def) x {no chain, &&, and, ||}: the bare source and the hand-wrapped ![...] source compile to the same program through the "
-        "real Execer; C02's probe programs (names bound only in inner scopes do not stop the wrap); command lines include a Python call inside @( ).",
-   note="KNOWN FINDING (recorded): a chain segment that is also valid Python (`ls -l /tmp && ...`) is wrapped without in_boolop=True. Unverified: termination of the "
+        "real Execer; C02's probe programs (names bound only in inner scopes do not stop the wrap); command lines include a Python call inside @( ); one-line chains of up to 20 (thorough 40) commands x 4 operators and scripts of up to 24 (48) chain lines.",
+   note="One genuine defect repaired (fix: dde0af8: a one-line chain of 12+ bare commands was a SyntaxError - the retry budget ignored chain operators). KNOWN FINDING (recorded): a chain segment that is also valid Python (`ls -l /tmp && ...`) is wrapped without in_boolop=True. Unverified: termination of the "
         "parser / lexer / helper calls inside the retry loop's body and its depth-1 recursion (so 'for all input strings' is proved only modulo those), subproc_toks / find_next_break / "
         "_abs_lexpos / balanced_parens, replace_logical_line, strip_continuation_comments, _have_open_triple_quotes (a ghost predicate here), "
         "CtxAwareTransformer.try_subproc_toks / _column_window, the lexer's whitespace synthesis. Trusted: pyvc engine + models + z3.",
@@ -317,7 +318,7 @@ CLAIMED = {
         "nothing re-split, merged, dropped or added (loop invariant against a weave function defined by four axioms). "
         "Bounded stand-in (not proved): 41 argument strings (the empty string included) "
         "(spaces, quotes, backslashes, newlines, glob and shell metacharacters, tilde / assignment shapes) x up to 8 delivery forms (@(expr), @([list]), r'..', r\"\"\"..\"\"\", plain, "
-        "triple-quoted, f-string, bare word) x 3 positions through the real execer to a recording callable alias, plus a real child process for a subset.",
+        "triple-quoted, f-string, bare word; 7 texts with several $VAR references in string literals against a one-pass reference expansion) x 3 positions through the real execer to a recording callable alias, plus a real child process for a subset.",
    note="KNOWN FINDING (recorded): a value injected right next to a word (`w@('*')`) is globbed / tilde-expanded. Unverified: the parser actions that assemble the argument list (_subproc_cliargs, p_subproc_atom_*, p_string_literal - bounded only), list_of_list_of_strs_outer_product (see the known finding), macro raw-text slicing, SubprocSpec._fix_null_cmd_bytes, @$() re-splitting, expandvars itself, "
         "that os.path.expanduser leaves text not starting with `~` alone (assumed). Trusted: pyvc engine + str.split / str.join / map as uninterpreted functions + z3.",
    design="§3 C04"),
@@ -325,7 +326,7 @@ CLAIMED = {
    category="exploration",
    text="Deductive part (small): in _quote_paths, for every candidate name and every prefix / quote state, the raw prefix is chosen only for names without control characters, and a "
         "name with `$` or backslash and no control character is written raw (asserts on the real decision statements, rest of the loop body abstracted). The property itself - "
-        "decode(quote(name)) == name - needs xonsh's lexer as a specification function and is NOT proved: bounded stand-ins on the real code: 36 file names (spaces, both quotes, $, "
+        "decode(quote(name)) == name - needs xonsh's lexer as a specification function and is NOT proved: bounded stand-ins on the real code: 48 file names (spaces, both quotes, FF / VT / BEL / ESC / DEL and other control characters, $, "
         "backslashes, newline / tab / CR, glob and shell metacharacters, leading ~ - # !, a keyword, trailing space / backslash) x typed prefixes (nothing, 1-2 characters, an opened "
         "' / \" / r' with and without a first character) spliced like the shell does and read back through the real execer; the analyser on every string over a 9-character alphabet up to "
         "length 4 (thorough 5) x every cursor position (never raises; prefix / suffix reproduce the text around the cursor).",
